@@ -469,28 +469,29 @@ def run(ctx):
 
             from soundevent.arrays import dimensions as DM
 
-            usr_sr = rng.choice([8000, 16000, 10000])
+            # (rates no library call of this run has used: whatever an earlier call left behind cannot pass for this axis's step)
+            usr_sr = rng.choice([7919, 15991, 10007, 8000])
             n_u = usr_sr // 2
             tt = 2.0 + np.arange(n_u) / usr_sr
-            how = rng.choice(["create_dim_no_step", "plain_coords", "create_dim_estimate"])
-            if how == "plain_coords":
-                tcoord = tt
-            else:
-                tcoord = DM.create_time_dim_from_array(tt, estimate_step=(how == "create_dim_estimate"))
-            uw = xr.DataArray(np.random.default_rng(seed).normal(size=(n_u, 1)), dims=("time", "channel"), coords={"time": tcoord, "channel": [0]})
-            uspec = dict(base, kind="user_waveform", how=how, usr_sr=usr_sr)
-            ctx.case(("user_waveform", how), uspec)
-            from soundevent.audio import operations as AO
-            from soundevent.audio import spectrograms as SP
+            for how in ("create_dim_no_step", "plain_coords", "create_dim_estimate"):
+                if how == "plain_coords":
+                    tcoord = tt
+                else:
+                    tcoord = DM.create_time_dim_from_array(tt, estimate_step=(how == "create_dim_estimate"))
+                uw = xr.DataArray(np.random.default_rng(seed).normal(size=(n_u, 1)), dims=("time", "channel"), coords={"time": tcoord, "channel": [0]})
+                uspec = dict(base, kind="user_waveform", how=how, usr_sr=usr_sr)
+                ctx.case(("user_waveform", how), uspec)
+                from soundevent.audio import operations as AO
+                from soundevent.audio import spectrograms as SP
 
-            try:
-                # judged by the ambient axis-contract postconditions on resample / compute_spectrogram
-                AO.resample(uw, usr_sr // 2)
-                ctx.mon("resample")
-                SP.compute_spectrogram(uw, window_size=256 / usr_sr, hop_size=128 / usr_sr)
-                ctx.mon("compute_spectrogram")
-            except Exception as e:
-                ctx.violate_exc("user_waveform:raises", f"user_waveform:raises:{type(e).__name__}", e, spec=uspec)
+                try:
+                    # judged by the ambient axis-contract postconditions on resample / compute_spectrogram
+                    AO.resample(uw, usr_sr // 2)
+                    ctx.mon("resample")
+                    SP.compute_spectrogram(uw, window_size=256 / usr_sr, hop_size=128 / usr_sr)
+                    ctx.mon("compute_spectrogram")
+                except Exception as e:
+                    ctx.violate_exc("user_waveform:raises", f"user_waveform:raises:{type(e).__name__}", e, spec=uspec)
         # spectrogram of a clip (source start != 0)
         if cw is not None and cw.sizes["time"] > 2048:
             ctx.case(("spectrogram", "of_clip"), dict(base, kind="spectrogram_of_clip"))
